@@ -20,6 +20,10 @@ impl Choices {
     pub fn new(seed: u64, stream: u64, replay: Option<Vec<u16>>) -> Ch {
         Rc::new(RefCell::new(Choices { rng: Rng::stream(seed, stream), replay, rp: 0, rec: vec![], faults: BTreeMap::new() }))
     }
+    /// The same decision stream without the `Rc` (for seams shared between threads behind a `Mutex`).
+    pub fn new_plain(seed: u64, stream: u64, replay: Option<Vec<u16>>) -> Choices {
+        Choices { rng: Rng::stream(seed, stream), replay, rp: 0, rec: vec![], faults: BTreeMap::new() }
+    }
     /// `n` options, 0 is the default ("no fault", "deliver everything").
     pub fn decide(&mut self, n: usize, gen: impl FnOnce(&mut Rng) -> usize) -> usize {
         if n <= 1 {
